@@ -74,7 +74,10 @@ def check(run: Run) -> None:
         tail = [s for s in fa.body.stmts if not isinstance(s, (C.RangeFor,))]
         rets = [cn(r.e) for s in tail for r in R.find(s, lambda n: isinstance(n, C.Return))]
         dif = [s for s in tail if isinstance(s, C.If)]
-        order = [type(s0).__name__ for s0 in fa.body.stmts]
+        # order of the three deciding statements among the top-level statements; anything else at the top level must not return
+        kinds = [type(s0).__name__ for s0 in fa.body.stmts]
+        deciding = [k for k, s0 in zip(kinds, fa.body.stmts) if k in ("RangeFor", "If", "Return") or any(isinstance(x, C.Return) for x in s0.walk())]
+        order = deciding
         if order != ["RangeFor", "If", "Return"]:
             run.finding("C12.b", "select_branch:order", f"explicit branches must be tried before the default: {order}", loc=SW)
         if rets not in (["&*context.spec.default_branch", "nullptr"], ["context.spec.default_branch", "nullptr"]) or len(dif) != 1 or cn(dif[0].cond) != "context.spec.default_branch.has_value()":
